@@ -23,7 +23,7 @@ BOUNDS = {
 STUBS = ["none: real contextvars contexts (copy_context().run)"]
 ASSUMPTIONS = ["operations are atomic: preemption inside an operation, real threads and asyncio scheduling are not modelled (contextvars is C)",
                "schedules are enumerated; the solver quantifies over the stored values only"]
-OUTSIDE = ["thread / asyncio interleavings below operation granularity", "LocalManager middleware", "proxy operator forwarding beyond resolution"]
+OUTSIDE = ["thread / asyncio interleavings below operation granularity", "LocalManager middleware", "proxy operator forwarding beyond resolution and augmented assignment"]
 
 OPS = ["A.set", "B.set", "A.del", "B.del", "A.release", "spawnC", "C.set", "C.del", "A.push", "B.push", "A.pop", "C.push", "C.pop", "C.release"]
 
@@ -127,8 +127,39 @@ def body_schedule(I, X, ops=("A.set", "spawnC", "C.set")):
     return ok, {"trace": trace}
 
 
+def body_proxy_iop(I, X, op="__iadd__"):
+    """an augmented assignment through a proxy (p += v) leaves p a late-bound proxy: afterwards
+    it still resolves to each context's own value and is unbound where nothing is set"""
+    from werkzeug.local import Local, LocalProxy
+
+    base = contextvars.copy_context()
+    loc = base.run(Local)
+    a, b, c = (base.run(contextvars.copy_context) for _ in range(3))
+    v0, v1, v2 = X.int("v0", -1000, 1000), X.int("v1", -1000, 1000), X.int("v2", 1, 1000)
+    a.run(lambda: I.setattr(loc, "x", v0))
+    b.run(lambda: I.setattr(loc, "x", v1))
+    p = LocalProxy(loc, "x")
+    p = a.run(lambda: I.call(getattr(p, op), (v2,)))
+    ok = isinstance(p, LocalProxy)
+    if ok:
+        def read():
+            try:
+                return ("val", I.call(p._get_current_object, ()))
+            except RuntimeError:
+                return ("unbound", None)
+
+        ka, va = a.run(read)
+        kb, vb = b.run(read)
+        kc, vc = c.run(read)
+        ok = pand(ka == "val", kb == "val", kc == "unbound", peq(va, v0), peq(vb, v1))
+    return ok, {"is_proxy": isinstance(p, LocalProxy)}
+
+
 def obligations(tier, seed):
     out = []
+    for op in ("__iadd__", "__isub__", "__imul__", "__ifloordiv__"):
+        out.append({"name": f"proxy_iop[{op}]", "body": "body_proxy_iop", "params": {"op": op},
+                    "opts": {"budget_s": 300, "ctx": {"bv_ints": True}}})
     k = 4 if tier == "quick" else 5
     for ops in itertools.product(OPS, repeat=k):
         # a child-context operation before the spawn is a no-op: skip those schedules
